@@ -121,6 +121,7 @@ macro_rules! strcase { ($name:ident, $f:ident, $n:expr, $cov:expr) => {
 strcase!(fen_side_1, fen_side_case, 1, true);
 strcase!(fen_side_2, fen_side_case, 2, false);
 strcase!(fen_side_3, fen_side_case, 3, false);
+strcase!(fen_side_4, fen_side_case, 4, false);
 
 /// castling field (slice verif_fen_castling): Ok exactly for "-" or a non-empty set of the letters KQkq
 /// without repetition; the rights are exactly the letters present; the e.p. nibble is untouched
@@ -150,6 +151,7 @@ strcase!(fen_castling_2, fen_castling_case, 2, true);
 strcase!(fen_castling_3, fen_castling_case, 3, true);
 strcase!(fen_castling_4, fen_castling_case, 4, true);
 strcase!(fen_castling_5, fen_castling_case, 5, false);
+strcase!(fen_castling_6, fen_castling_case, 6, false);
 
 /// e.p. field (slice verif_fen_ep): Ok exactly for "-" or a file a..h followed by the rank behind a
 /// double push of the side NOT to move (6 when White is to move, 3 when Black is); the e.p. file is
@@ -181,6 +183,7 @@ fn fen_ep_case<const N: usize>() -> bool {
 strcase!(fen_ep_1, fen_ep_case, 1, true);
 strcase!(fen_ep_2, fen_ep_case, 2, true);
 strcase!(fen_ep_3, fen_ep_case, 3, false);
+strcase!(fen_ep_4, fen_ep_case, 4, false);
 
 /// tail of Game::new (slice verif_fen_tail): both kings required; the game carries exactly the scanned
 /// board, caches, totals and side; one state entry; hash completed with the state key; WF1 king cache
